@@ -46,14 +46,24 @@ class Listener:
         pass
 
 
+def _copy(data):
+    if data is None:
+        return None
+    from ..symbytes import mkbytes, _items_of
+    it = _items_of(data)
+    if it is None:
+        it = list(data)
+    return mkbytes(it)
+
+
 class CyclicTask:
     """A cyclic send task registered at the model bus; `live` until stop()."""
 
     def __init__(self, bus, msg, period):
         self.bus = bus
         self.msg = msg
-        # python-can copies the message content into the task at creation
-        self.snapshot = (msg.arbitration_id, msg.is_extended_id, msg.is_remote_frame, msg.data)
+        # the task snapshots the frame content at creation (like a kernel BCM job)
+        self.snapshot = (msg.arbitration_id, msg.is_extended_id, msg.is_remote_frame, _copy(msg.data))
         self.period = period
         self.live = True
         self.stops = 0
@@ -65,7 +75,7 @@ class CyclicTask:
 
 class ModifiableCyclicTask(CyclicTask):
     def modify_data(self, msg):
-        self.snapshot = (self.snapshot[0], self.snapshot[1], self.snapshot[2], msg.data)
+        self.snapshot = (self.snapshot[0], self.snapshot[1], self.snapshot[2], _copy(msg.data))
 
 
 class BusABC:
